@@ -10,8 +10,9 @@ from harness.replay_model import ModelDriver
 class Adapter:
     case_timeout = 30
 
-    def __init__(self, langs=None, **kw):
+    def __init__(self, langs=None, each_step=False, **kw):
         self.langs = langs or {}
+        self.each_step = each_step
 
     def on_timeout(self, case):
         return {'steps': 1, 'div': [{'kind': 'timeout', 'action': 'Generate', 'component': 'timeout', 'features': [],
@@ -26,6 +27,13 @@ class Adapter:
         acts = [s['act'] for s in case['hist']]
         for a in acts:
             drv.apply(a)
+            if self.each_step and drv.model.assets:
+                # a graph is generated (and dropped) after every step, as a user inspecting the model would: whatever the
+                # library remembers from one generation must not change the next
+                try:
+                    AttackGraph(ctx.lang_graph, drv.model)
+                except Exception:
+                    pass
         if any(a['res'] == 'collide' for a in acts):
             res['features'].append('rename_collision')
         m = drv.model
@@ -36,6 +44,12 @@ class Adapter:
         except Exception as e:
             res['div'].append(self.div(case, 'exception', {'error': repr(e)[:300]}, res['features']))
             return res
+        # the graph of the model reached by this history against what the specification assigns to the final state
+        if case.get('exp', {}).get('nodes') and not any(a['res'] == 'collide' for a in acts):
+            from harness.replay_graph import check_graph
+            gcase = {'assets': case['final'], 'assocs': [], 'exp': case['exp']}
+            for comp, detail, feats in check_graph(gcase, ctx, m, drv.objs, g)[:3]:
+                res['div'].append(self.div(case, comp, detail, list(feats) + ['after_history']))
         names = [n.full_name for n in g.nodes]
         ids = [n.id for n in g.nodes]
         if len(set(names)) != len(names):
